@@ -209,6 +209,44 @@ CHECKS["C19"] = dict(
 PENDING_REASON = "check not built yet in this session (work in progress; design in DESIGN.md section 6)"
 
 
+# later rounds: what was added to each check (appended to the level notes)
+ADDENDA = {
+    "C01": "Round 3: a one-sided disc in a two-sided image (side 1 never formatted).",
+    "C03": "Rounds 2-3: one-line loops; three-line programs over {quote, 0x8D, FOR, NEXT} (TLC, Basic_*_str.cfg) listed by the real binary; "
+           "a program listed after programs with unbalanced loops is what it is alone.",
+    "C04": "Rounds 2-3: MmbDir.tla (directory scan; de Bruijn directory of status bytes), 11-bit catalogue totals, two-file sessions of different "
+           "geometry, an uncatalogued second side; hook events of every layer of the reads are replayed through ReadStack.tla "
+           "(TraceReadStack.tla) with the container's documented layout as context.",
+    "C05": "Rounds 2-3: Opus/Watford and two-sided flux, SKIPBITS in a track's final gap, blank side 1; read-stack hook events of flux image "
+           "and sector dump of the same surface must deliver the same data for every drive sector (TraceReadStack.tla content agreement).",
+    "C07": "Rounds 2-3: TrackCheck.tla (CRC-valid flux for every sorted sector list: size codes, wrong cylinder/head, duplicate/missing records), "
+           "MMB slot status x command x drive matrix, multi-drive command matrix over pairs of image files.",
+    "C08": "Round 3: programs whose loop depth accumulates over lines (unbounded indentation), long runs of outdents.",
+    "C09": "Rounds 2-3: stale-state phase (every end-of-line byte value alone and after a poison file), empty-body lines, leading 3-byte "
+           "little-endian lines cut at line boundaries, unbalanced programs in the multi-file orders.",
+    "C10": "Rounds 2-3: RReadBack (blocks of the decompressed copy), images trimmed inside a sector, full 511-slot and 7-slot MMB, interleaved / "
+           "anomalous flux; read-stack hook events of X and X.gz form one group and must agree sector by sector.",
+    "C11": "Rounds 2-3: C-stdio profiles (tested/untested writes, mid-output fflush, several input files) in OutStream.tla; buffer-aligned "
+           "listings; warning paths; the closed pipe is created in the child.",
+    "C12": "Rounds 2-3: Extract.tla (whole extraction runs over catalogue fragments, escaping names at every position of both Watford fragments "
+           "and in Opus volumes); files left in the system temporary directory (private mount namespace with an empty tmpfs on /tmp).",
+    "C13": "Rounds 2-3: zero-length file at sector 2, one-track Opus volume, identification per surface (ordered pairs of variants as two files "
+           "and as the two sides of one image).",
+    "C14": "Rounds 2-3: several drives in one `space` / `free` run, each drive's section judged (a blank disc among them).",
+    "C15": "Rounds 2-3: RFind (catalogue walk over fragments behind type/list/dump) on catalogues with 0..31 entries in the first Watford "
+           "fragment; Context.tla: every sequence of --drive/--dir/--ui/--verbose/--show-config options, observed through `type F` and `info *`.",
+    "C16": "Rounds 2-3: block reads through the sector cache; images with a never-formatted second side in the CLI histories.",
+    "C17": "Rounds 2-3: OpusTable.tla (every start-track table; volumes in any track order, one-track volumes) with files ending on and past each "
+           "volume's last sector; MMB slot behind an unformatted one; lengths needing bits 16-17; read-stack hook events replayed through "
+           "ReadStack.tla with the extents the requirement defines as context.",
+    "C18": "Rounds 2-3: option orders with --drive NL; interleaved/anomalous flux in the corpus; COLUMNS exported with stdout a file; unwritable "
+           "standard error.",
+    "C19": "Rounds 2-3: interleaved flux, two-digit drive numbers (7-slot MMB) in multi-drive commands.",
+}
+for _k, _v in ADDENDA.items():
+    CHECKS[_k]["text"] = CHECKS[_k]["text"] + " " + _v
+
+
 def main():
     props = [json.loads(l)["id"] for l in open(os.path.join(VERIF, "properties.jsonl"))]
     hooks_commits = []
